@@ -1090,6 +1090,9 @@ def delete_pointless_statements(source: str) -> str:
     ast_tree = core.parse(source)
     safe_callables = parsing.safe_callable_names(ast_tree)
     guarded_by_handler = _statements_in_try_bodies(ast_tree)
+    underscore_is_used = _reads_underscore(ast_tree) or any(
+        "_" in node.names for node in core.walk(ast_tree, (ast.Global, ast.Nonlocal))
+    )
     for node in itertools.chain([ast_tree], parsing.iter_bodies_recursive(ast_tree)):
         for i, child in enumerate(node.body):
             if core.has_side_effect(child, safe_callables):
@@ -1100,7 +1103,19 @@ def delete_pointless_statements(source: str) -> str:
             # inside a try body with handlers, raising is what the statement is there for
             if child in guarded_by_handler and not _cannot_raise(child):
                 continue
+            # "_" is only a throwaway name as long as nothing reads it (_ = gettext.gettext)
+            if underscore_is_used and _mentions_underscore(child):
+                continue
             yield child, None
+
+
+def _mentions_underscore(node: ast.AST) -> bool:
+    """Whether the statement binds, defines or otherwise touches the name "_"."""
+    return any(
+        (isinstance(child, ast.Name) and child.id == "_")
+        or (isinstance(child, (ast.FunctionDef, ast.AsyncFunctionDef, ast.ClassDef)) and child.name == "_")
+        for child in ast.walk(node)
+    )
 
 
 def _cannot_raise(node: ast.AST) -> bool:
